@@ -47,6 +47,7 @@ fn facts_space(k: usize) -> Space {
         .exh("conditionals", space::cond_grammar(cond_atoms), k + 2)
         .exh("look-behind", lookbehind_grammar(), k + 1)
         .ctxfill(3, 1, &|c| c.name.contains("(?<"))
+        .ctxfill(2, 1, &|c| !c.name.contains("(?<"))
 }
 
 fn chars_between(text: &str, s: usize, e: usize) -> Option<usize> {
